@@ -7,6 +7,8 @@ use std::panic::{catch_unwind, AssertUnwindSafe};
 
 mod dur;
 mod epoch;
+mod float;
+mod views;
 
 pub enum Tok {
     Z(i128),
@@ -67,7 +69,7 @@ pub fn pdur(d: Duration) -> String {
 }
 
 fn run(name: &str, a: &Args) -> Option<String> {
-    dur::run(name, a).or_else(|| epoch::run(name, a))
+    dur::run(name, a).or_else(|| epoch::run(name, a)).or_else(|| float::run(name, a)).or_else(|| views::run(name, a))
 }
 
 fn main() {
